@@ -258,10 +258,25 @@ class gclmulchunker(ChunkerAdapter):
     alignment = 4
 
     def __init__(self, *, min_length=MIN_LENGTH, max_length=MAX_LENGTH):
+        if not isinstance(min_length, int) or not isinstance(max_length, int):
+            raise ValueError('Chunk lengths must be integers')
+
+        if min_length < 1:
+            raise ValueError(f'Minimum length ({min_length}) must be positive')
+
         if min_length > max_length:
             raise ValueError(
                 f'Minimum length ({min_length}) is greater '
                 f'than the maximum one ({max_length})'
+            )
+
+        # Cuts are placed at multiples of the alignment
+        if (
+            min_length + self.alignment - 1
+        ) // self.alignment * self.alignment > max_length:
+            raise ValueError(
+                f'No multiple of {self.alignment} between the minimum '
+                f'length ({min_length}) and the maximum one ({max_length})'
             )
 
         self.min_length, self.max_length = min_length, max_length
